@@ -29,6 +29,7 @@ TypeDecls == <<
   [n |-> "DpB", def |-> << <<"D", 1>>, <<"B", -1>> >>, ref |-> "dpb", q |-> NoRat,    conv |-> "scale"],
   [n |-> "Bi",  def |-> << <<"B", -1>> >>,             ref |-> "bi",  q |-> NoRat,    conv |-> "scale"],
   [n |-> "ApBD", def |-> << <<"A", 1>>, <<"B", -1>>, <<"D", -1>> >>, ref |-> "apbd", q |-> NoRat, conv |-> "scale"],
+  [n |-> "Pc",  def |-> <<>>,                          ref |-> "%",   q |-> NoRat,    conv |-> "scale"],   \* a symbol that is a format character
   [n |-> "N",   def |-> <<>>,                          ref |-> NoName, q |-> NoRat,   conv |-> "none"],
   [n |-> "T",   def |-> <<>>,                          ref |-> NoName, q |-> NoRat,   conv |-> "table"],
   [n |-> "Money", def |-> <<>>,                        ref |-> NoName, q |-> NoRat,   conv |-> "money"]
@@ -54,6 +55,7 @@ UnitDecls == <<
   UScaled("ha", "A", <<1, 2>>, "frac", "ka"),
   UScaled("ta", "A", <<1, 3>>, "frac", "a"),
   UScaled("da", "A", <<12, 1>>, "int", "ta"),
+  UScaled("sa", "A", <<1, 7>>, "frac", "ta"),                  \* 1/21 a: a second scale without finite decimal expansion
   UScaled("xa", "A", <<5, 1>>, "dec", "a"),
   UScaled("aa", "A", <<100, 1>>, "int", "a"),
   UScaled("aq", "A", <<1, 10>>, "dec", "ka"),                  \* an alias of the reference unit defined through another unit
@@ -83,6 +85,8 @@ UnitDecls == <<
   URef("apbd", "ApBD"),
   UDerive("kapmbkd", "ApBD", <<"ka", "mb", "kd">>),
   UTerm("hapcbbd", "ApBD", << <<"ha", 1>>, <<"cb", -1>>, <<"bd", -1>> >>),
+  URef("%", "Pc"),
+  UScaled("%%", "Pc", <<1, 10>>, "dec", "%"),
   UPlain("p", "N"),
   UPlain("q", "N"),
   UPlain("tc", "T"),
